@@ -67,4 +67,18 @@ CHECKS = {
               "precondition; same-constructor-same-arity; TypeConstructor.is_subtype, ParameterizedType.is_assignable and the "
               "__eq__ overrides not under contract; TypeParameter.has_bound_of trusted"),
         design='DESIGN.md section 4 (C06)'),
+    'C07': dict(
+        level='proof',
+        technique='deductive verification of frames (allocation-set ghost: every attribute write targets an object allocated in the call; frame postconditions "all fields of every pre-existing object unchanged") with z3; structural clauses by bounded comparison with a reference substitution',
+        text=("Proved for all class tables, maps and arguments: the constructors (Type, SimpleClassifier, TypeParameter, "
+              "WildCardType, TypeConstructor, ParameterizedType.__init__), _get_type_substitution, substitute_type_args, "
+              "substitute_type, perform_type_substitution and TypeConstructor.new modify no object that existed before the call "
+              "(neither the generic class definition nor any argument nor any earlier instantiation), return a new "
+              "ParameterizedType with exactly the given arguments, the constructor's name, as many supertypes as declared and a "
+              "private constructor copy whose supertypes are the declared ones. The structural clauses (every occurrence "
+              "substituted transitively, empty map gives an equal type, ground map leaves no type variable) are NOT proved: "
+              "bounded comparison with an independent reference substitution on 5 class tables."),
+        note=("trusted: deepcopy contract (fresh, same class/name/arity, touches nothing old), allocation model and heap "
+              "closure, purity of cond, Valid(t) preconditions; type-map lookups modelled by identity of the key"),
+        design='DESIGN.md section 4 (C07)'),
 }
